@@ -394,3 +394,168 @@ Proof.
   - apply (emb_b_sound _ suite_name le_suite_b); auto. intros. apply le_suite_b_sound. assumption.
   - intros He. destruct (rp_end a); simpl in *; [apply report_eqb_eq; assumption | congruence].
 Qed.
+
+(* ---------------- completeness of the executable version when sibling names are pairwise distinct ---------------- *)
+Lemma list_eqb_rfl : forall A (eqb : A -> A -> bool) l, (forall x, In x l -> eqb x x = true) -> list_eqb eqb l l = true.
+Proof. induction l; simpl; intros; auto. rewrite H by auto. simpl. auto. Qed.
+
+Lemma ostr_eqb_rfl : forall a, ostr_eqb a a = true.
+Proof. destruct a; simpl; auto using str_eqb_rfl. Qed.
+Lemma oZ_eqb_rfl : forall a, oZ_eqb a a = true.
+Proof. destruct a; simpl; auto using Z.eqb_refl. Qed.
+
+Lemma meta_eqb_rfl : forall m, meta_eqb m m = true.
+Proof.
+  intros [n d t p l]. unfold meta_eqb. simpl. rewrite !str_eqb_rfl. simpl.
+  rewrite (list_eqb_rfl _ str_eqb) by auto using str_eqb_rfl.
+  rewrite (list_eqb_rfl _ (pair_eqb str_eqb str_eqb)) by (intros [a b] _; unfold pair_eqb; simpl; rewrite !str_eqb_rfl; reflexivity).
+  rewrite (list_eqb_rfl _ (pair_eqb str_eqb ostr_eqb)) by (intros [a b] _; unfold pair_eqb; simpl; rewrite str_eqb_rfl, ostr_eqb_rfl; reflexivity).
+  reflexivity.
+Qed.
+
+Lemma steplog_eqb_rfl : forall a, steplog_eqb a a = true.
+Proof. destruct a; simpl; rewrite ?str_eqb_rfl, ?ostr_eqb_rfl, ?Z.eqb_refl, ?eqb_reflx; reflexivity. Qed.
+
+Lemma step_eqb_rfl : forall a, step_eqb a a = true.
+Proof.
+  intros [d s e l]. unfold step_eqb. simpl. rewrite str_eqb_rfl, !oZ_eqb_rfl. simpl.
+  apply list_eqb_rfl. intros. apply steplog_eqb_rfl.
+Qed.
+
+Lemma result_eqb_rfl : forall a, result_eqb a a = true.
+Proof.
+  intros [s e st sd l]. unfold result_eqb. simpl. rewrite !oZ_eqb_rfl, !ostr_eqb_rfl. simpl.
+  apply list_eqb_rfl. intros. apply step_eqb_rfl.
+Qed.
+
+Lemma oresult_eqb_rfl : forall a, option_eqb result_eqb a a = true.
+Proof. destruct a; simpl; auto using result_eqb_rfl. Qed.
+
+Lemma test_eqb_rfl : forall a, test_eqb a a = true.
+Proof. intros [m r]. unfold test_eqb. simpl. rewrite meta_eqb_rfl, result_eqb_rfl. reflexivity. Qed.
+
+Lemma suite_eqb_rfl : forall a, suite_eqb a a = true.
+Proof.
+  induction a as [m st e su td ts us IH] using suite_ind2. simpl.
+  rewrite meta_eqb_rfl, !oZ_eqb_rfl, !oresult_eqb_rfl. simpl.
+  rewrite (list_eqb_rfl _ test_eqb) by (intros; apply test_eqb_rfl). simpl.
+  induction us as [|x r IHr]; auto. inversion IH; subst. rewrite H1. simpl. auto.
+Qed.
+
+Lemma report_eqb_rfl : forall a, report_eqb a a = true.
+Proof.
+  intros [t i s e sv n su td us]. unfold report_eqb. simpl.
+  rewrite str_eqb_rfl, !oZ_eqb_rfl, Z.eqb_refl, !oresult_eqb_rfl. simpl.
+  rewrite (list_eqb_rfl _ (pair_eqb str_eqb str_eqb)) by (intros [a b] _; unfold pair_eqb; simpl; rewrite !str_eqb_rfl; reflexivity).
+  simpl. apply list_eqb_rfl. intros. apply suite_eqb_rfl.
+Qed.
+
+Lemma list_prefix_b_complete : forall A (eqb : A -> A -> bool), (forall x, eqb x x = true) ->
+  forall l l', list_prefix l l' -> list_prefix_b eqb l l' = true.
+Proof.
+  intros A eqb Hr. induction l; intros l' [r E]; simpl; auto. subst l'. simpl. rewrite Hr. simpl. apply IHl. exists r. reflexivity.
+Qed.
+
+Lemma lep_b_complete : forall A (leb : A -> A -> bool) (R : A -> A -> Prop) l l',
+  (forall x y, In x l -> R x y -> leb x y = true) -> lep R l l' -> lep_b leb l l' = true.
+Proof.
+  intros A leb R l l' H E. induction E; simpl; auto. rewrite (H a b) by auto with datatypes. simpl. apply IHE. auto with datatypes.
+Qed.
+
+Lemma emb_head_in : forall A (R : A -> A -> Prop) a r l', emb R (a :: r) l' -> exists y, In y l' /\ R a y.
+Proof.
+  intros A R a r l' H. remember (a :: r) as l eqn:El. induction H; try discriminate.
+  - inversion El; subst. exists b. auto with datatypes.
+  - destruct (IHemb El) as (y & Hy & Ry). exists y. auto with datatypes.
+Qed.
+
+Lemma str_eqb_neq : forall a b, a <> b -> str_eqb a b = false.
+Proof. intros a b H. destruct (str_eqb a b) eqn:E; auto. apply N_list_eqb_eq in E. contradiction. Qed.
+
+Lemma emb_b_complete : forall A (key : A -> str) (leb : A -> A -> bool) (R : A -> A -> Prop) l l',
+  (forall x y, In x l -> R x y -> key x = key y /\ leb x y = true) ->
+  NoDup (map key l') -> emb R l l' -> emb_b key leb l l' = true.
+Proof.
+  intros A key leb R l l' H Hn E. induction E.
+  - reflexivity.
+  - destruct (H a b) as [Hk Hl]; auto with datatypes. simpl. rewrite <- Hk, str_eqb_rfl, Hl. simpl.
+    inversion Hn; subst. apply IHE; auto with datatypes.
+  - destruct l as [|a r]; [reflexivity|].
+    inversion Hn as [|? ? Hnotin Hn']; subst.
+    destruct (emb_head_in _ _ _ _ _ E) as (y & Hy & Ry). destruct (H a y) as [Hk _]; auto with datatypes.
+    assert (Hne : key b <> key a).
+    { intros Eq. apply Hnotin. rewrite Eq, Hk. apply in_map. assumption. }
+    change (emb_b key leb (a :: r) (b :: l')) with
+      (match find_after key (key a) (b :: l') with None => false | Some (b0, r') => leb a b0 && emb_b key leb r r' end).
+    cbn [find_after]. rewrite (str_eqb_neq _ _ Hne). apply (IHE H Hn').
+Qed.
+
+Lemma le_step_b_complete : forall a b, le_step a b -> le_step_b a b = true.
+Proof.
+  intros a b (D & S & L & F). unfold le_step_b. rewrite D, S, str_eqb_rfl, oZ_eqb_rfl. simpl.
+  rewrite (list_prefix_b_complete _ steplog_eqb steplog_eqb_rfl _ _ L). simpl.
+  destruct (st_end a) eqn:E; simpl; auto. rewrite <- F by congruence. apply step_eqb_rfl.
+Qed.
+
+Lemma le_result_b_complete : forall a b, le_result a b -> le_result_b a b = true.
+Proof.
+  intros a b (S & L & F). unfold le_result_b. rewrite S, oZ_eqb_rfl. simpl.
+  rewrite (lep_b_complete _ le_step_b le_step _ _ (fun x y _ => le_step_b_complete x y) L). simpl.
+  destruct (r_end a) eqn:E; simpl; auto. rewrite <- F by congruence. apply result_eqb_rfl.
+Qed.
+
+Lemma le_oresult_b_complete : forall a b, le_oresult a b -> le_oresult_b a b = true.
+Proof. intros [a|] [b|] H; simpl in *; auto using le_result_b_complete; try contradiction. Qed.
+
+Lemma le_test_b_complete : forall a b, le_test a b -> le_test_b a b = true.
+Proof. intros a b [M R]. unfold le_test_b. rewrite M, meta_eqb_rfl, (le_result_b_complete _ _ R). reflexivity. Qed.
+
+Lemma unique_children : forall l,
+  (fix all (l : list suite_result) : Prop := match l with [] => True | x :: r => unique_names_suite x /\ all r end) l ->
+  Forall unique_names_suite l.
+Proof. induction l; intros H; constructor; destruct H; auto. Qed.
+
+Lemma emb_mono2 : forall A (R R' : A -> A -> Prop) l l',
+  (forall x y, In x l -> In y l' -> R x y -> R' x y) -> emb R l l' -> emb R' l l'.
+Proof.
+  intros A R R' l l' H E. induction E.
+  - constructor.
+  - constructor; auto with datatypes.
+  - apply emb_skip. auto with datatypes.
+Qed.
+
+Lemma le_suite_b_complete : forall a b, le_suite a b -> unique_names_suite b -> le_suite_b a b = true.
+Proof.
+  induction a as [m st e su td ts us IH] using suite_ind2. intros b H U. inversion H; subst.
+  rewrite le_suite_b_eq. destruct U as (U1 & U2 & U3). apply unique_children in U3.
+  rewrite meta_eqb_rfl, oZ_eqb_rfl. cbn [andb].
+  rewrite (le_oresult_b_complete su su') by assumption. rewrite (le_oresult_b_complete td td') by assumption. cbn [andb].
+  rewrite (emb_b_complete _ test_name le_test_b le_test ts ts'); auto.
+  2:{ intros x y _ Hxy. split; [destruct Hxy as [M _]; unfold test_name; rewrite M; reflexivity | apply le_test_b_complete; assumption]. }
+  cbn [andb].
+  rewrite (emb_b_complete _ suite_name le_suite_b (fun x y => le_suite x y /\ unique_names_suite y) us us'); auto.
+  2:{ intros x y Hx [Hxy Uy]. split.
+      - unfold suite_name. apply le_suite_meta in Hxy. rewrite Hxy. reflexivity.
+      - rewrite Forall_forall in IH. apply IH; assumption. }
+  2:{ eapply emb_mono2; [|eassumption]. intros x y _ Hy Hxy. split; auto. rewrite Forall_forall in U3. auto. }
+  cbn [andb]. destruct e as [z|]; cbn [is_some]; [|reflexivity].
+  match goal with Hf : Some z <> None -> _ = _ |- _ => rewrite <- Hf by discriminate end.
+  apply suite_eqb_rfl.
+Qed.
+
+Theorem le_report_b_complete : forall a b, le_report a b -> unique_names b -> le_report_b a b = true.
+Proof.
+  intros a b (T & I & N & S & SU & TD & U & F) [U1 U2]. unfold le_report_b.
+  rewrite T, I, N, str_eqb_rfl, Z.eqb_refl. simpl.
+  rewrite (list_eqb_rfl _ (pair_eqb str_eqb str_eqb)) by (intros [x y] _; unfold pair_eqb; simpl; rewrite !str_eqb_rfl; reflexivity).
+  simpl.
+  assert (Hs : le_otime_b (rp_start a) (rp_start b) = true).
+  { destruct S as [S|S]; rewrite S; simpl; auto. destruct (rp_start b); simpl; auto using Z.eqb_refl. }
+  rewrite Hs, (le_oresult_b_complete _ _ SU), (le_oresult_b_complete _ _ TD). simpl.
+  rewrite (emb_b_complete _ suite_name le_suite_b (fun x y => le_suite x y /\ unique_names_suite y) (rp_suites a) (rp_suites b)); auto.
+  - simpl. destruct (rp_end a) eqn:E; simpl; auto. rewrite F by congruence. apply report_eqb_rfl.
+  - intros x y _ [Hxy Uy]. split.
+    + unfold suite_name. apply le_suite_meta in Hxy. rewrite Hxy. reflexivity.
+    + apply le_suite_b_complete; assumption.
+  - eapply emb_mono2; [|eassumption]. intros x y _ Hy Hxy. split; auto. rewrite Forall_forall in U2. auto.
+Qed.
